@@ -99,7 +99,15 @@ def gen_pipeline(rng):
             p1, p2 = rand_pt(rng, 3.0), rand_pt(rng, 3.0)
             p1[2], p2[2] = abs(p1[2]) + 0.5, abs(p2[2]) + 0.5
             n = rng.randint(2, 6)
-            args.append('-w%d,%d,%s,0.001' % (t, n, ','.join(repr(x) for x in p1 + p2)))
+            if rng.random() < 0.4:
+                # a tapered wire thick enough for the 2.5-radii limit to decide the shortest segment
+                n = rng.randint(6, 10)
+                L = math.dist(p1, p2)
+                rr = L / n / rng.choice([4, 6, 12])
+                args.append('-w%d,%d,%s,%r' % (t, n, ','.join(repr(x) for x in p1 + p2), rr))
+                args.append('--taper-wire=%d,%d' % (t, rng.choice([1, 2, 3])))
+            else:
+                args.append('-w%d,%d,%s,0.001' % (t, n, ','.join(repr(x) for x in p1 + p2)))
         else:
             n = rng.randint(3, 8)
             args.append('-a%d,%d,%r,%r,%r,0.001' % (t, n, rng.uniform(0.5, 2), rng.choice([0.0, 30.0]), rng.choice([90.0, 180.0, 270.0])))
@@ -173,6 +181,24 @@ def pipeline_property(args, rots, trans, scales):
             if float(np.abs(q - np.array(p)).max()) > 1e-9 * sc:
                 return ('object %d point %d is at %s; rotations and translations in key order followed by scaling give %s'
                         % (tag, k, [round(x, 6) for x in p], [round(float(x), 6) for x in q]))
+        # every segment of the transformed object is the transformed segment of the original one (segmentation — equal,
+        # tapered, curved — commutes with the motions, and scaling multiplies every length)
+        segs0 = base[[b[0] for b in base].index(tag)][3]
+        if len(segs0) != len(segs1):
+            return 'object %d has %d segments after the transformations, %d before' % (tag, len(segs1), len(segs0))
+        for k, (s0, s1) in enumerate(zip(segs0, segs1)):
+            for e in (0, 1):
+                q = np.array(s0[e])
+                for kk, kind, v, t in ops:
+                    if t is None or t == tag:
+                        q = Rotation_Matrix(v).apply(q) if kind == 'r' else q + np.array(v)
+                for fac, t in scales:
+                    if t is None or t == tag:
+                        q = q * fac
+                if float(np.abs(q - np.array(s1[e])).max()) > 1e-9 * sc:
+                    return ('object %d: end %d of segment %d is at %s; the same segment of the untransformed object, moved and '
+                            'scaled (factor %r), is at %s' % (tag, e + 1, k + 1, [round(x, 6) for x in s1[e]], f,
+                                                             [round(float(x), 6) for x in q]))
         # the segments tile the transformed object
         if len(pts1) > 2:
             for k, sg in enumerate(segs1):
